@@ -311,6 +311,7 @@ R4_RULES = [
     ('R4-sort', r'(?P<e>\b[a-z_][A-Za-z0-9_]*)\s*\.\s*sort\s*\(\s*\)', r'vx_sort(&mut \g<e>)', None),
     ('R4-addr-collect', r'\.\s*into_iter\s*\(\s*\)\s*\.\s*map\s*\(\s*\|\s*\(\s*_\s*,\s*x\s*\)\s*\|\s*x\s*\)\s*\.\s*collect\s*\(\s*\)',
      r'.vx_second_collect()', None),
+    ('R4-retain-ge', r'\.\s*retain\s*\(\s*\|\s*k\s*,\s*_\s*\|\s*k\s*>=\s*(?P<r>\w+)\s*\)', r'.vx_retain_keys_ge(\g<r>)', None),
     ('R4-get-map-or-else-stake', r'(?P<e>%s)\s*\.\s*get\s*\(\s*(?P<k>\w+)\s*\)\s*\.\s*map_or_else\s*\(\s*\|\s*\|\s*0\s*,\s*\|\s*x\s*\|\s*x\s*\.\s*stake\s*\)' % _E,
      r'(match \g<e>.get(\g<k>) { None => 0, Some(x) => x.stake })', None),
     ('R4-get-map-field', r'(?P<e>%s)\s*\.\s*get\s*\(\s*(?P<k>\w+)\s*\)\s*\.\s*map\s*\(\s*\|\s*x\s*\|\s*x\s*\.\s*(?P<f>\w+)\s*\)' % _E,
@@ -558,6 +559,34 @@ class FnEmitter:
             elif cl.kind == 'at-start':
                 pos = toks[a_tok].end
                 edits.append(Edit(pos, pos, '\n' + self.ghost(cl) + '\n', rule='ghost'))
+
+        # --- R4-entry: `.entry(K).or_insert_with(F)` -> `.vx_entry_or_insert_with(K, F)` (F a fn path)
+        #               `.entry(K).or_insert_with(|| Box::new(T::new()))` -> `.vx_entry_or_box_new(K, T::new)`
+        for i in range(a_tok, b_tok):
+            t = toks[i]
+            if t.kind == 'ident' and t.text == 'entry' and toks[i - 1].text == '.' and toks[i + 1].text == '(':
+                c1 = match_close(toks, i + 1)
+                if not (toks[c1 + 1].text == '.' and toks[c1 + 2].text == 'or_insert_with' and toks[c1 + 3].text == '('):
+                    raise GenError('R4-entry: unsupported use of entry()', spec.qname)
+                c2 = match_close(toks, c1 + 3)
+                arg = toks[c1 + 4:c2]
+                argtxt = ' '.join(x.text for x in arg)
+                ka, kb = toks[i + 2].start, toks[c1 - 1].end
+                m_box = re.match(r'^\| \| Box :: new \( (\w+) :: new \( \) \)$', argtxt)
+                m_path = re.match(r'^\w+( :: \w+)*$', argtxt)
+                if m_box:
+                    fnpath = m_box.group(1) + '::new'
+                    meth = 'vx_entry_or_box_new'
+                elif m_path:
+                    fnpath = argtxt.replace(' ', '')
+                    meth = 'vx_entry_or_insert_with'
+                else:
+                    raise GenError('R4-entry: unsupported initialiser %r' % argtxt, spec.qname)
+
+                def mk(T, ka=ka, kb=kb, meth=meth, fnpath=fnpath):
+                    return '%s(%s, %s)' % (meth, T(ka, kb), fnpath)
+                edits.append(Edit(t.start, toks[c2].end, func=mk, rule='R4-entry'))
+                self.fire('R4-entry', '.entry(..).or_insert_with(%s)' % argtxt)
 
         # --- R4 idioms (regex on the original text, located as edits)
         text = src[body_src_a:body_src_b]
